@@ -6,6 +6,7 @@ import SiaModel.Gen.FactsPolicy
 import SiaProofs.Lemmas.PolicyLimits
 import SiaProofs.Lemmas.PolicyWitness
 import SiaProofs.Lemmas.PolicyAddress
+import SiaProofs.Lemmas.PolicyMerkle
 /-!
 # C14 — Spend policy verification matches the policy's meaning and address commitment
 
@@ -330,7 +331,7 @@ theorem c14_standard_address (H : ByteArray → ByteArray) (pk : ByteArray) :
   constructor
   · simp [standardAddress, addressWith, encode, encPolicy, policyVersion, opPublicKey, ByteArray.append_assoc]
   · intro hs
-    simp [standardUnlockHash, addressWith, ucRoot, merkleRoot, accAdd, accRoot, leafHash, nodeHash,
+    simp [standardUnlockHash, addressWith, ucRoot, ucRootG, merkleRootG, accAddG, accRootG, leafHash, nodeHash,
       encUnlockKey, hs, ByteArray.append_assoc]
 
 /-- instance with the real BLAKE2b-256 and a concrete 32-byte key -/
@@ -346,6 +347,97 @@ theorem tie_standard_unlock_leaf_constants :
     hexEncode (leafHash blake2b256 (le64 0)) = Gen.FactsPolicy.timelockHashHex ∧
     hexEncode (leafHash blake2b256 (le64 1)) = Gen.FactsPolicy.sigsrequiredHashHex := by
   constructor <;> decide +kernel
+
+/-! ## The standard fast path of `UnlockConditions.UnlockHash`; injectivity on unlock conditions -/
+
+/-- the model's fast-path condition, spelled out -/
+theorem c14_fastpath_condition (c : UnlockConditions) :
+    fastPathCond c = true ↔
+      (c.timelock = 0 ∧ (∃ k, c.publicKeys = [k] ∧ k.algorithm = specEd25519 ∧ k.key.size = 32)
+        ∧ c.signaturesRequired = 1) := by
+  unfold fastPathCond
+  match h : c.publicKeys with
+  | [] => simp
+  | [k] => simp [Bool.and_eq_true]; constructor <;> (intro h; simp_all)
+  | _ :: _ :: _ => simp
+
+/-- **The fast path is the same Merkle tree in closed form.** `UnlockConditions.UnlockHash`
+    (with the two precomputed constants being the leaf hashes of 0 and 1 —
+    `tie_standard_unlock_leaf_constants`) always equals `unlockConditionsRoot`, i.e. the address
+    of the `uc` policy: the fast path never changes the value. -/
+theorem c14_unlock_hash_fastpath (H : ByteArray → ByteArray) (c : UnlockConditions) :
+    unlockHash H (leafHash H (le64 0)) (leafHash H (le64 1)) c = addressWith H (.uc c) := by
+  unfold unlockHash
+  by_cases hf : fastPathCond c = true
+  · obtain ⟨h0, ⟨k, hk, ha, hs⟩, h1⟩ := (c14_fastpath_condition c).1 hf
+    obtain ⟨tl, ks, req⟩ := c
+    obtain ⟨alg, key⟩ := k
+    simp only at h0 hk ha hs h1
+    subst h0; subst hk; subst ha; subst h1
+    simp only [hf, if_true]
+    exact (c14_standard_address H key).2 hs
+  · simp [hf, addressWith]
+
+/-- The special cases of the address code, read from the Go source: the standard fast path
+    exists in `UnlockConditions.UnlockHash` ONLY (not in `unlockConditionsRoot`, not in
+    `SpendPolicy.Address`), it is guarded by exactly these five conjuncts, both callers fall
+    through to `unlockConditionsRoot` — and the model's `unlockHash` takes its fast path under
+    exactly that condition (`fastPathCond`), its `address` never. -/
+theorem tie_standard_fastpath_condition :
+    Gen.FactsPolicy.unlockHashFastPath =
+      ["uc.Timelock == 0", "len(uc.PublicKeys) == 1", "uc.PublicKeys[0].Algorithm == SpecifierEd25519",
+       "len(uc.PublicKeys[0].Key) == len(PublicKey{})", "uc.SignaturesRequired == 1"] ∧
+    Gen.FactsPolicy.ucRootFastPath = [] ∧ Gen.FactsPolicy.addressFastPath = [] ∧
+    Gen.FactsPolicy.addressUcReturn = "unlockConditionsRoot(UnlockConditions(uc))" ∧
+    Gen.FactsPolicy.unlockHashFallthrough = "unlockConditionsRoot(uc)" ∧
+    (∀ H tl sr c, fastPathCond c = false → unlockHash H tl sr c = ucRoot H c) ∧
+    (∀ H tl sr c k, fastPathCond c = true → c.publicKeys = [k] →
+      unlockHash H tl sr c = standardUnlockHash H tl sr k.key) ∧
+    (∀ H c, addressWith H (.uc c) = ucRoot H c) := by
+  refine ⟨by decide, by decide, by decide, by decide, by decide, ?_, ?_, ?_⟩
+  · intro H tl sr c h; simp [unlockHash, h]
+  · intro H tl sr c k h hk; simp [unlockHash, h, hk]
+  · intro H c; simp [addressWith]
+
+/-- **The address of a legacy unlock-conditions policy determines the unlock conditions**
+    (under `HashInj`: the two Merkle hash constructors are injective and disjoint — "up to a
+    BLAKE2b collision"): timelock, every key with its ALGORITHM SPECIFIER and length, and the
+    required count are all bound. Over an abstract hash algebra. `WF`: uint64 fields, 16-byte
+    specifiers. -/
+theorem c14_address_injective_on_uc {D : Type} (leaf : ByteArray → D) (node : D → D → D) (zero : D)
+    (h : HashInj leaf node) (c c' : UnlockConditions) (hc : c.WF) (hc' : c'.WF)
+    (e : ucRootG leaf node zero c = ucRootG leaf node zero c') : c = c' :=
+  ucRootG_inj h zero c c' hc hc' e
+
+/-- … for the byte-level model, for `SpendPolicy.Address` and — across the fast path — for
+    `UnlockConditions.UnlockHash`: two different unlock conditions never share an address or an
+    unlock hash, standard-shaped or not. -/
+theorem c14_address_injective_on_uc_bytes (H : ByteArray → ByteArray)
+    (h : HashInj (leafHash H) (nodeHash H)) (c c' : UnlockConditions) (hc : c.WF) (hc' : c'.WF) :
+    (addressWith H (.uc c) = addressWith H (.uc c') → c = c') ∧
+    (unlockHash H (leafHash H (le64 0)) (leafHash H (le64 1)) c
+      = unlockHash H (leafHash H (le64 0)) (leafHash H (le64 1)) c' → c = c') := by
+  constructor
+  · intro e; simp only [addressWith, ucRoot] at e; exact ucRootG_inj h _ c c' hc hc' e
+  · intro e
+    rw [c14_unlock_hash_fastpath, c14_unlock_hash_fastpath] at e
+    simp only [addressWith, ucRoot] at e; exact ucRootG_inj h _ c c' hc hc' e
+
+/-- `HashInj` is satisfiable (the free term algebra), so the theorem is not vacuous; and in that
+    model the standard conditions of a key and the same key under another algorithm specifier
+    have different roots -/
+example : HashInj MTree.leaf MTree.node := MTree.hashInj_free
+example (K : ByteArray) (hK : K.size < 18446744073709551616) :
+    ucRootG MTree.leaf MTree.node (.leaf .empty) ⟨0, [⟨specEd25519, K⟩], 1⟩
+      ≠ ucRootG MTree.leaf MTree.node (.leaf .empty) ⟨0, [⟨specEntropy, K⟩], 1⟩ := by
+  intro e
+  have wf : ∀ a : ByteArray, a.size = 16 → UnlockConditions.WF ⟨0, [⟨a, K⟩], 1⟩ := by
+    intro a ha
+    refine ⟨by simp, by simp, ?_⟩
+    intro k hk; simp at hk; subst hk; exact ⟨ha, hK⟩
+  have := c14_address_injective_on_uc _ _ _ MTree.hashInj_free _ _ (wf _ (by decide)) (wf _ (by decide)) e
+  simp at this
+  exact spec_ed_ne_entropy this
 
 /-! ## Decoder nesting limit -/
 
